@@ -398,6 +398,9 @@ func genStream(r *vh.Rand, schema []sleaf, o streamOpts, ts *int64) []*Noti {
 	return out
 }
 
+// breakMark stands for a stream failure inside a generated stream.
+var breakMark = &Noti{TS: -1}
+
 // interleave merges per-target streams into one script with the subscription
 // point somewhere inside.
 func interleave(r *vh.Rand, streams map[string][]*Noti, order []string, subAt int) []Op {
@@ -417,7 +420,11 @@ func interleave(r *vh.Rand, streams map[string][]*Noti, order []string, subAt in
 		if idx[nm] >= len(streams[nm]) {
 			continue
 		}
-		ops = append(ops, Op{T: nm, N: streams[nm][idx[nm]]})
+		if streams[nm][idx[nm]] == breakMark {
+			ops = append(ops, Op{T: nm, Break: true})
+		} else {
+			ops = append(ops, Op{T: nm, N: streams[nm][idx[nm]]})
+		}
 		idx[nm]++
 		done++
 	}
@@ -429,8 +436,55 @@ func interleave(r *vh.Rand, streams map[string][]*Noti, order []string, subAt in
 
 func wholeTarget(name string) ClientSpec { return ClientSpec{Prefix: GPath{Target: name}} }
 
+// genBurst: one target sends, back to back, rounds of one large notification
+// over many leaves followed at once by a last single update of one of them
+// (which is never written again); a slow subscriber and a fast one watch.  The
+// collector's per-subscriber queue then holds several leaves while the same
+// leaf is updated again -- what is left at the end must still be the last value.
+func genBurst(r *vh.Rand, thorough bool) *Case {
+	c := &Case{Family: "burst", NoPace: true}
+	c.Requests = []ReqCfg{{Name: "all", Prefix: &GPath{Origin: "openconfig"}, Paths: []GPath{{}}}}
+	c.Targets = []TargetCfg{{Name: "dev1", Request: "all"}}
+	nl := 56 + r.Intn(16)
+	rounds := 6 + r.Intn(3)
+	if thorough {
+		rounds += 6
+	}
+	leaf := func(i int) GPath {
+		return GPath{Elem: []PElem{{Name: "burst"}, {Name: fmt.Sprintf("l%02d", i)}}}
+	}
+	ts := int64(1000)
+	// a little state before the clients subscribe
+	ts += 10
+	c.Ops = append(c.Ops, Op{T: "dev1", N: &Noti{TS: ts, Updates: []Upd{{Path: leaf(0), Val: TV{K: "int", I: -1}}}}})
+	c.Ops = append(c.Ops, Op{Subscribe: true})
+	for round := 0; round < rounds && round < nl; round++ {
+		for rep := 0; rep < 1+r.Intn(2); rep++ {
+			ts += 10
+			n := &Noti{TS: ts}
+			for i := round; i < nl; i++ {
+				n.Updates = append(n.Updates, Upd{Path: leaf(i), Val: TV{K: "int", I: int64(1000*round + 10*rep + i%7)}})
+			}
+			c.Ops = append(c.Ops, Op{T: "dev1", N: n})
+		}
+		ts += 10
+		// shortly afterwards (the sender has taken this leaf, the rest of the
+		// large notification is still queued) its last value
+		c.Ops = append(c.Ops, Op{T: "dev1", DelayUS: 150 + r.Intn(400), N: &Noti{TS: ts, Updates: []Upd{{Path: leaf(round), Val: TV{K: "str", S: fmt.Sprintf("final-%d", round)}}}}})
+	}
+	c.Clients = []ClientSpec{
+		{Prefix: GPath{Target: "dev1"}, Slow: 300 + r.Intn(700)},
+		{Prefix: GPath{Target: "dev1"}},
+	}
+	c.Cli = []CliSpec{{Target: "dev1", Query: []string{}}}
+	return c
+}
+
 // genScenario draws one scenario of the given family.
 func genScenario(r *vh.Rand, family string, thorough bool) *Case {
+	if family == "burst" {
+		return genBurst(r, thorough)
+	}
 	c := &Case{Family: family}
 	ts := int64(1000 + r.Intn(1000))
 	nt := 2 + r.Intn(2)
@@ -481,6 +535,11 @@ func genScenario(r *vh.Rand, family string, thorough bool) *Case {
 		nt = 1
 	case "badcfg":
 		nt = 2
+	case "reconnect":
+		nt = 2
+		origins = []string{"", "foo"}
+		so.delPct = 20
+		so.n = 10 + r.Intn(8)
 	}
 	if thorough {
 		so.n += 10
@@ -517,6 +576,19 @@ func genScenario(r *vh.Rand, family string, thorough bool) *Case {
 			continue
 		}
 		streams[nm] = genStream(r, schema, so, &ts)
+		if family == "reconnect" {
+			// one or two stream failures; the sessions after them re-send only part
+			// of the state, with edited values (the rest must disappear)
+			nb := 1 + r.Intn(2)
+			if i > 0 && r.Chance(1, 2) {
+				nb = 0 // the other target may stay up
+			}
+			for b := 0; b < nb; b++ {
+				sess := genStream(r, schema, streamOpts{n: 5 + r.Intn(6), delPct: 15, globPct: 10, syncs: true, vals: so.vals}, &ts)
+				streams[nm] = append(streams[nm], breakMark)
+				streams[nm] = append(streams[nm], sess...)
+			}
+		}
 	}
 	if family == "badcfg" {
 		if r.Chance(1, 2) {
@@ -540,6 +612,8 @@ func genScenario(r *vh.Rand, family string, thorough bool) *Case {
 		subAt = total
 	case "deletes":
 		subAt = total / 10
+	case "reconnect":
+		subAt = total / 8 // the clients are streaming when the sessions fail
 	}
 	c.Ops = interleave(r, streams, names, subAt)
 	// clients: the whole target for every streaming target; plus variety
